@@ -58,11 +58,13 @@ FAMILIES = {
                  thorough=[ex(3, NSlots="= 3"), ex(4, NSlots="= 2", NilOps="= TRUE", HopLast="= 2"),
                            sim(30000, 8, NSlots="= 3", NilOps="= TRUE")]),
     "Taint": fam("MC_Taint",
-                 quick=[sim(1200, 5, design=False, NSlots="= 2", Fresh="= TRUE"),
-                        sim(600, 5, design=False, NSlots="= 2", Fresh="= TRUE", Shapes="<- ShapesR", Shapes2="<- Shapes2R")],
+                 quick=[sim(640, 5, design=False, NSlots="= 2", Fresh="= TRUE"),
+                        sim(320, 5, design=False, NSlots="= 2", Fresh="= TRUE", Shapes="<- ShapesR", Shapes2="<- Shapes2R"),
+                        chain(4, hops=2, Fresh="= TRUE", Ops="<- OpsBarrier", Shapes="<- ShapesR", Shapes2="<- Shapes2R")],
                  thorough=[sim(20000, 7, design=False, NSlots="= 3", Fresh="= TRUE"),
                            sim(10000, 7, design=False, NSlots="= 3", Fresh="= TRUE", Shapes="<- ShapesR",
-                               Shapes2="<- Shapes2R")]),
+                               Shapes2="<- Shapes2R"),
+                           chain(4, hops=2, Fresh="= TRUE", Ops="<- OpsBarrier", Shapes="<- ShapesR", Shapes2="<- Shapes2R")]),
     "Format": fam("MC_Format", full=True,
                   quick=[chain(2, hops=0), sim(400, 5, design=False, NSlots="= 2")],
                   thorough=[ex(2), chain(2, hops=0), sim(8000, 7, design=False, NSlots="= 3")]),
